@@ -319,6 +319,65 @@ func C10(r *h.Run) {
 			}
 		}
 	}
+	// a stream created some time before its first Send (the request is made then, not when the
+	// stream is created): the timeout announced must be the time remaining when the request
+	// leaves, not when the stream object was made
+	for _, proto := range []string{"connect", "grpc", "grpcweb"} {
+		for _, kind := range []string{"client", "bidi"} {
+			hname := "Connect-Timeout-Ms"
+			var opts []connect.ClientOption
+			if proto == "grpc" {
+				opts, hname = append(opts, connect.WithGRPC()), "Grpc-Timeout"
+			} else if proto == "grpcweb" {
+				opts, hname = append(opts, connect.WithGRPCWeb()), "Grpc-Timeout"
+			}
+			var vals []string
+			var remaining time.Duration
+			var deadline time.Time
+			doer := roundTripFunc(func(req *http.Request) (*http.Response, error) {
+				vals = append([]string(nil), req.Header.Values(hname)...)
+				remaining = time.Until(deadline)
+				return nil, fmt.Errorf("verif: stop here")
+			})
+			client := connect.NewClient[wrapperspb.BytesValue, wrapperspb.BytesValue](doer, "http://verif.invalid/verif.Svc/Do", opts...)
+			deadline = time.Now().Add(2 * time.Second)
+			ctx, cancel := context.WithDeadline(context.Background(), deadline)
+			const idle = 400 * time.Millisecond
+			if kind == "client" {
+				st := client.CallClientStream(ctx)
+				time.Sleep(idle)
+				_ = st.Send(&wrapperspb.BytesValue{})
+				_, _ = st.CloseAndReceive()
+			} else {
+				st := client.CallBidiStream(ctx)
+				time.Sleep(idle)
+				_ = st.Send(&wrapperspb.BytesValue{})
+				_ = st.CloseRequest()
+				_, _ = st.Receive()
+				_ = st.CloseResponse()
+			}
+			cancel()
+			in := map[string]any{"proto": proto, "kind": kind, "deadline": "2s", "idle_between_creating_the_stream_and_the_first_Send_ms": idle.Milliseconds()}
+			r.Eval("client_stream_idle", fmt.Sprint(proto, kind))
+			r.Sample("client_stream_idle", map[string]any{"in": in, "timeout_header": vals, "remaining_when_sent_ms": remaining.Milliseconds()})
+			if len(vals) != 1 {
+				r.Fail(h.Failure{Key: proto + "-client/timeout-header-count", Family: "client_stream_idle", What: fmt.Sprintf("the request carries %d timeout values", len(vals)), Input: in, Actual: vals})
+				continue
+			}
+			var sent time.Duration
+			if hname == "Connect-Timeout-Ms" {
+				n, _ := strconv.ParseInt(vals[0], 10, 64)
+				sent = time.Duration(n) * time.Millisecond
+			} else if len(vals[0]) >= 2 {
+				n, _ := strconv.ParseInt(vals[0][:len(vals[0])-1], 10, 64)
+				usz, _ := unitSize(vals[0][len(vals[0])-1])
+				sent = time.Duration(n * usz)
+			}
+			if sent > remaining+5*time.Millisecond {
+				r.Fail(h.Failure{Key: proto + "-client/extended", Family: "client_stream_idle", What: fmt.Sprintf("the request announces %v although only %v remained when it was sent: the handler's deadline is later than the client's", sent, remaining), Input: in, Actual: vals})
+			}
+		}
+	}
 	clientCase := func(proto string, d time.Duration) {
 		var cap capture
 		var deadline time.Time
